@@ -766,6 +766,35 @@ func TestStorms(t *testing.T) {
 			reader, reader,
 		}
 	})
+	// use case changes (the node management data is set and its subscribers notified) against
+	// subscription requests on one connection and discovery replies (announcements) on another
+	run("usecases-vs-subscriptions-vs-announcements", func(e *env, stop *atomic.Bool) []func() {
+		p0, p1 := e.w.Peers[0], e.w.Peers[1]
+		return []func(){
+			func() {
+				for i := 0; i < 400; i++ {
+					uc := useCaseNames[i%len(useCaseNames)]
+					e.ents[0].AddUseCaseSupport(model.UseCaseActorTypeCEM, uc, model.SpecificationVersionType("1.0.0"), "", true, []model.UseCaseScenarioSupportType{1, 2})
+					e.ents[0].SetUseCaseAvailability(model.UseCaseActorTypeCEM, uc, i%2 == 0)
+					e.ents[0].RemoveUseCaseSupport(model.UseCaseActorTypeCEM, uc)
+				}
+				stop.Store(true)
+			},
+			func() {
+				for !stop.Load() {
+					p0.Send(p0.Msg(model.CmdClassifierTypeCall, p0.NM(), world.LocalNM(), true, nil, world.SubscribeCall(p0.NM(), world.LocalNM(), model.FeatureTypeTypeNodeManagement)))
+					p0.Send(p0.Msg(model.CmdClassifierTypeCall, p0.NM(), world.LocalNM(), true, nil, world.UnsubscribeCall(p0.NM(), world.LocalNM())))
+				}
+			},
+			func() {
+				for !stop.Load() {
+					// the peer announces itself again (a reply to the discovery read the stack sent)
+					cmd := model.CmdType{NodeManagementDetailedDiscoveryData: p1.DiscoveryData(p1.Ents, nil)}
+					p1.Send(p1.Msg(model.CmdClassifierTypeReply, p1.NM(), world.LocalNM(), false, p1.DiscoveryRef, cmd))
+				}
+			},
+		}
+	})
 	run("entities-vs-discovery", func(e *env, stop *atomic.Bool) []func() {
 		p0, p1 := e.w.Peers[0], e.w.Peers[1]
 		return []func(){
